@@ -351,14 +351,18 @@ def bounded(ctx):
               "(during a run): they are called in priority order with the library's own event object, each once, up to the "
               "first one that stops the propagation")
     for ev in ("config", "pre-resolve", "pre-handle"):
-        for stops in (False, True):
-            ctx.case([ev, stops], nontrivial=True)
-            for sg, what in library_event_case(ev, stops):
-                ctx.fail(sg, "%s / first listener stops=%s: %s" % (ev, stops, what), witness={"library_event": ev, "stops": stops})
+        for stops in (False, True) + (("handles",) if ev == "pre-handle" else ()):
+            for own in (False, True):
+                ctx.case([ev, stops, own], nontrivial=True)
+                for sg, what in library_event_case(ev, stops, own):
+                    ctx.fail(sg, "%s / first listener stops=%s / own dispatcher=%s: %s" % (ev, stops, own, what),
+                             witness={"library_event": ev, "stops": stops, "own": own})
     ctx.done(exhaustive=True)
 
 
-def library_event_case(ev, stops):
+def library_event_case(ev, stops, own=False):
+    """own: an (empty) dispatcher of the caller is installed on the configuration first - the listeners registered through
+    the configuration must land on THAT dispatcher, the one the application dispatches on"""
     from clikit import ConsoleApplication
     from clikit.api.event import CONFIG, PRE_HANDLE, PRE_RESOLVE
     from clikit.config import DefaultApplicationConfig
@@ -372,7 +376,12 @@ def library_event_case(ev, stops):
     def mk(tag, stop):
         def listener(event, event_name, dispatcher):
             calls.append((tag, event_name, type(event).__name__))
-            if stop:
+            if stop == "handles":
+                # marks the command as handled (the handler is skipped) WITHOUT stopping the propagation: the listeners
+                # behind it are still called
+                event.handled(True)
+                event.set_status_code(0)
+            elif stop:
                 event.stop_propagation()
         return listener
 
@@ -385,15 +394,24 @@ def library_event_case(ev, stops):
     cfg.set_terminate_after_run(False)
     with cfg.command("go") as c:
         c.set_handler(Handler())
+    mine = None
+    if own:
+        from clikit.api.event import EventDispatcher
+        mine = EventDispatcher()
+        cfg.set_event_dispatcher(mine)
     cfg.add_event_listener(name, mk("low", False), 0)
     cfg.add_event_listener(name, mk("high", stops), 5)
+    if own and (cfg.dispatcher is not mine or not mine.has_listeners(name)):
+        return [("library_events|%s|listener-on-another-dispatcher" % ev,
+                 "after set_event_dispatcher(d) and add_event_listener: config.dispatcher is d = %s, d.has_listeners = %s"
+                 % (cfg.dispatcher is mine, mine.has_listeners(name)))]
     try:
         app = ConsoleApplication(cfg)
         if ev != "config":
             app.run(StringArgs("go"), StringInputStream(""), BufferedOutputStream(), BufferedOutputStream())
     except Exception as e:
         return [("library_events|%s|dispatch-raises|%s" % (ev, type(e).__name__), "dispatching the event raised %r" % (e,))]
-    want = ["high"] if stops else ["high", "low"]
+    want = ["high"] if stops is True else ["high", "low"]
     got = [c[0] for c in calls]
     if got != want:
         return [("library_events|%s|wrong-calls" % ev, "listeners called: %r, expected %r" % (calls, want))]
@@ -517,7 +535,7 @@ def replay_bounded(check_id, failure):
                 return {"fails": bool(fails), "detail": "; ".join("%s: %s" % f for f in fails) or "behaves as specified"}
         return {"fails": False, "detail": "no such case"}
     if w.get("library_event"):
-        fails = library_event_case(w["library_event"], bool(w.get("stops")))
+        fails = library_event_case(w["library_event"], w.get("stops") if w.get("stops") == "handles" else bool(w.get("stops")), bool(w.get("own")))
         return {"fails": bool(fails), "detail": "; ".join("%s: %s" % f for f in fails) or "behaves as specified"}
     if w.get("shared_ops"):
         f = run_shared(tuple(tuple(o) for o in w["shared_ops"]))
